@@ -54,6 +54,10 @@ func (m ClientState) GetLatestHeight() exported.Height {
 }
 
 func (m ClientState) Validate() error {
+	// heights are taken modulo the epoch wherever the client is initialised, upgraded or updated
+	if m.Epoch == 0 {
+		return sdkerrors.Wrap(ErrInvalidGenesisBlock, "epoch cannot be zero")
+	}
 	return m.Header.ValidateBasic()
 }
 
